@@ -126,3 +126,9 @@ V('C08', 'sql-transaction-capability-dropped', 'edb/server/compiler/sql.py',
   '''        if unit.tx_action is not None:
             unit.capabilities |= enums.Capability.TRANSACTION
 ''', '', 'C08.R7', 'transaction-capability-follows-tx_action')
+
+# round 5: the stored seeded breaks this property's check reports, replayed as variants
+from sa.selftest import VP  # noqa
+VP('C08', 'C08-e1', 'C08.R2', 'records-modifying')
+VP('C08', 'C08-e2', 'C08.L', 'falsy-enum-member')
+VP('C08', 'C08-e3', 'C08.R3', 'has_dml')
